@@ -101,7 +101,8 @@ SPECS = {
  'C17': dict(
     quick=[S('T1', 2, M_T, O_T | og('REPLAY', 'COPY', 'DESTROY'), flags=['--copy'], prefills=[0x00, 0xFF, 0xA5]), S('T2', 2, M_TP, O_TALL, flags=['--copy'], prefills=[0x00, 0xFF]),
            S('P5', 1, M_P, O_PALL, W, ['--copy'], prefills=[0x00, 0xFF, 0xA5]), S('P5h', 1, M_P0, O_PALL, W, ['--copy'], prefills=[0xFF]),
-           S('T2', 1, M_TP, O_TALL, flags=['--copy'], variant='plain-O0', prefills=[0x00, 0xFF, 0xA5]), S('P3', 1, M_P, O_PALL, flags=['--copy'], variant='plain-O0', prefills=[0x00, 0xFF, 0xA5])],
+           S('T2', 1, M_TP, O_TALL, flags=['--copy'], variant='plain-O0', prefills=[0x00, 0xFF, 0xA5]), S('P3', 1, M_P, O_PALL, flags=['--copy'], variant='plain-O0', prefills=[0x00, 0xFF, 0xA5]),
+           S('P7', 1, M_P0 | mf('PAYLOAD'), O_P | og('PAYLOAD', 'COPY', 'DESTROY'), W, ['--copy'], prefills=[0x00, 0xFF, 0xA5]), S('P7', 0, M_P0 | mf('PAYLOAD'), O_P | og('PAYLOAD', 'COPY'), W, ['--copy'], variant='plain-O0', prefills=[0x00, 0xFF])],
     thorough=[S('T1', 3, M_T, O_T | og('REPLAY', 'COPY', 'DESTROY'), W, ['--copy', '--copy-dev=2'], prefills=[0x00, 0xFF, 0xA5]), S('T2', 3, M_TP, O_TALL, W, ['--copy', '--copy-dev=2'], prefills=[0x00, 0xFF, 0xA5]),
               S('T5', 2, M_TP, O_TALL, W, ['--copy', '--copy-dev=2'], prefills=[0x00, 0xFF]), S('P5', 2, M_P, O_PALL, W, ['--copy', '--copy-dev=2'], prefills=[0x00, 0xFF, 0xA5], share=3), S('P5h', 1, M_P, O_PALL, W, ['--copy'], prefills=[0x00, 0xFF]),
               S('P2', 1, M_P0 | mf('PAYLOAD'), O_PALL, W, ['--copy'], prefills=[0x00, 0xFF], share=2), S('T4', 2, M_T, O_TALL, W, ['--copy'])]),
